@@ -24,6 +24,8 @@ type rnnCase struct {
 	dt          tensor.Dtype
 	explicitNil bool // absent optional inputs passed as explicit nil instead of being left out
 	outNames    int  // 0: Y, Y_h, Y_c; 1: last left unnamed; 2: only Y named; 3: Y unnamed; 4: arbitrary names
+	attrRot     int  // rotation of the attribute list
+	sameState   bool // LSTM: initial_h and initial_c are the same tensor object
 }
 
 func (c rnnCase) gates() int { return map[string]int{"RNN": 1, "GRU": 3, "LSTM": 4}[c.kind] }
@@ -220,6 +222,12 @@ func genRnnCase(rt *rapid.T) rnnCase {
 	c.dt = rapid.SampledFrom([]tensor.Dtype{tensor.Float32, tensor.Float32, tensor.Float32, tensor.Float32, tensor.Float64}).Draw(rt, "dtype")
 	c.explicitNil = rapid.Bool().Draw(rt, "explicitNil")
 	c.outNames = rapid.SampledFrom([]int{0, 0, 0, 1, 2, 3, 4}).Draw(rt, "outNames")
+	c.attrRot = rapid.IntRange(0, 3).Draw(rt, "attrRot")
+	if c.kind == "LSTM" && c.H0 != nil && c.C0 != nil && rapid.IntRange(0, 3).Draw(rt, "sameStateObject") == 0 {
+		// one tensor object serves as initial_h and as initial_c (a graph may name one value twice)
+		c.C0 = append([]float32{}, c.H0...)
+		c.sameState = true
+	}
 	return c
 }
 
@@ -233,6 +241,11 @@ func (c rnnCase) node() *onnx.NodeProto {
 	}
 	if c.acts != nil {
 		attrs = append(attrs, attrStrs("activations", c.acts...))
+	}
+	if n := len(attrs); n > 1 {
+		// the order of the attributes of a node carries no meaning
+		k := c.attrRot % n
+		attrs = append(append([]*onnx.AttributeProto{}, attrs[k:]...), attrs[:k]...)
 	}
 	outs := []string{"Y", "Y_h"}
 	if c.kind == "LSTM" {
@@ -271,7 +284,11 @@ func (c rnnCase) inputs() []tensor.Tensor {
 		c.tensorOf(c.Bias, 1, 2*G*c.H), nil, c.tensorOf(c.H0, 1, c.B, c.H),
 	}
 	if c.kind == "LSTM" {
-		ins = append(ins, c.tensorOf(c.C0, 1, c.B, c.H), c.tensorOf(c.P, 1, 3*c.H))
+		c0 := c.tensorOf(c.C0, 1, c.B, c.H)
+		if c.sameState {
+			c0 = ins[5]
+		}
+		ins = append(ins, c0, c.tensorOf(c.P, 1, 3*c.H))
 	}
 	if !c.explicitNil {
 		for len(ins) > 3 && ins[len(ins)-1] == nil {
